@@ -488,7 +488,7 @@ class _Named:
         return self.name
 
 
-def h_session(eng, K, max_batch):
+def h_session(eng, K, max_batch, sym_words=False):
     """A whole sequential session (--iterations K --batch B) through the real run(): _run, gen_program,
     process_cp_transformations, process_ncp_transformations, save_program, check_oracle, update_stats, save_stats.
     The tool's own steps are a stand-in ProgramProcessor / translate_program that fail at a symbolic point per program
@@ -499,11 +499,36 @@ def h_session(eng, K, max_batch):
     sess = os.path.join(root, 'bugs', 'sess')
     shutil.rmtree(os.path.join(root, 'bugs'), ignore_errors=True)
     os.makedirs(sess)
-    B = int(eng.fresh_int(1, max_batch, 'batch'))
+    B = int(eng.fresh_int(1, max_batch, 'batch')) if not sym_words else max_batch
     plan = {}
     for pid in range(1, K + 1):
-        plan[pid] = dict(fail=FAIL_AT[int(eng.fresh_int(0, len(FAIL_AT) - 1, 'fails_at'))],
-                         injects=bool(eng.fresh_bool('injects_a_fault')), ntrans=int(eng.fresh_int(0, 1, 'transformations')))
+        if sym_words:
+            plan[pid] = dict(fail='none', injects=bool(eng.fresh_bool('injects_a_fault')), ntrans=0)
+        else:
+            plan[pid] = dict(fail=FAIL_AT[int(eng.fresh_int(0, len(FAIL_AT) - 1, 'fails_at'))],
+                             injects=bool(eng.fresh_bool('injects_a_fault')), ntrans=int(eng.fresh_int(0, 1, 'transformations')))
+    # package names: the real RandomUtils.word / reset_word_pool on an instance-level pool.  sym_words: a pool of 6 words,
+    # every choice symbolic (gen_program resets the pool between the programs of a batch); otherwise a large pool drawn in
+    # order (distinct names, deterministic)
+    rnd = H.utils.random
+    saved_rnd = {k: rnd.__dict__.get(k) for k in ('INITIAL_WORDS', 'WORDS', 'r')}
+    words_drawn = []
+
+    class _R:
+        def choice(self, seq):
+            seq = sorted(seq)
+            w_ = seq[eng.choice_index(len(seq), 'word')] if sym_words else seq[0]
+            words_drawn.append(w_)
+            return w_
+    if sym_words:
+        rnd.INITIAL_WORDS = {'pka', 'pkb', 'pkc', 'pkd', 'pke', 'pkf'}
+    else:
+        rnd.INITIAL_WORDS = {'pk%03d' % i for i in range(200)}
+    rnd.WORDS = set(rnd.INITIAL_WORDS)
+    rnd.r = _R()
+    if not sym_words:
+        # (deterministic distinct names: the reset inside gen_program must not hand out a name twice in this job)
+        rnd.reset_word_pool = lambda: None
 
     def message(pid):
         return 'tool failure at %s of program %d' % (plan[pid]['fail'], pid)
@@ -545,7 +570,7 @@ def h_session(eng, K, max_batch):
 
     # the real JavaCompiler parses an output synthesised from the staged files: one javac error unit per ill-typed file,
     # followed by an internal stack trace when the compiler "crashes" on the first batch (symbolic)
-    crash_first = bool(eng.fresh_bool('compiler_crashes_on_the_first_batch'))
+    crash_first = bool(eng.fresh_bool('compiler_crashes_on_the_first_batch')) if not sym_words else False
     RealJava = _REAL_COMPILERS['java']
     ncalls = []
 
@@ -608,6 +633,12 @@ def h_session(eng, K, max_batch):
         H.run_command, H.print_msg, H.logging, H.STATS = saved['rc'], saved['pm'], saved['lg'], saved['stats']
         for k, v in saved_args.items():
             setattr(ca, k, v)
+        for k, v in saved_rnd.items():
+            if v is None:
+                rnd.__dict__.pop(k, None)
+            else:
+                setattr(rnd, k, v)
+        rnd.__dict__.pop('reset_word_pool', None)
 
     def failed_by_plan(pid):
         f = plan[pid]['fail']
@@ -619,7 +650,7 @@ def h_session(eng, K, max_batch):
             return plan[pid]['injects']
         return True
     crashed = set(range(1, min(B, K) + 1)) if crash_first else set()
-    case = dict(iterations=K, batch=B, compiler_crashes_on_the_first_batch=crash_first,
+    case = dict(iterations=K, batch=B, compiler_crashes_on_the_first_batch=crash_first, package_names=words_drawn[:8],
                 plan={p_: dict(d) for p_, d in plan.items()}, exception=repr(exc) if exc else None,
                 faults={k: (v.get('error') if isinstance(v, dict) else v) for k, v in stats.get('faults', {}).items()},
                 totals=stats.get('totals'))
@@ -636,8 +667,12 @@ def h_session(eng, K, max_batch):
         eng.event('session-with-two-tool-failures')
     if crashed:
         eng.event('session-with-compiler-crash')
+    if sym_words and len(set(words_drawn)) < len(words_drawn):
+        eng.event('session-with-repeated-package-name')
     for pid in plan:
         shape = 'fails_at=%s,injects=%d,crash=%d' % (plan[pid]['fail'], plan[pid]['injects'], pid in crashed)
+        if sym_words:
+            shape += ',package-names-%s' % ('repeat' if len(set(words_drawn)) < len(words_drawn) else 'distinct')
         obs.append(Ob('session|reported-iff-the-tool-failed-or-the-compiler-crashed|%s' % shape, (pid in faults) == (pid in want),
                       dict(case, pid=pid)))
         if pid in faults and pid in tool:
@@ -821,6 +856,13 @@ def jobs(tier):
                    budget_s=1500, crosscheck_every=20,
                    bounds='the real run() session of %d programs, --batch 1..%d; per program: failure point (6 values), fault '
                           'injected or not, 0..1 transformations, compiler crash on the first batch -- every combination' % (ks, mb2), outside=OUT))
+    out.append(Job('session-package-names', h_session, dict(K=2, max_batch=2, sym_words=True), split_depth=4,
+                   functions=[H.run, H._run, H.gen_program, H.check_oracle, H.utils.RandomUtils.word, H.utils.RandomUtils.reset_word_pool],
+                   require_events=['session'], budget_s=900, crosscheck_every=20,
+                   stubs=['as sequential-session, no tool failures; package names: the real RandomUtils.word / reset_word_pool on a pool of 6 '
+                          'words, every choice symbolic'],
+                   bounds='the real run() session of one batch of 2 programs; fault injected or not per program; every choice of the package '
+                          'names from a 6-word pool (the pool is reset by gen_program between the programs)', outside=OUT))
     out.append(Job('counters-step', h_counters, {}, serial=True, functions=[H.update_stats],
                    require_events=['counters'], stubs=STUBS,
                    bounds='arbitrary integers passed>=0, failed>=0, batch>=reported; 0..3 reported programs; one '
